@@ -215,7 +215,39 @@ def _limit(mem_gb):
     return f
 
 
-def run_one(hdir, target_dir, harness, log_path, timeout_s, mem_gb, extra_args=(), cbmc_args=()):
+def resolve_caps(hdir, target_dir, harness, caps, extra_args, log_path):
+    """Recursion caps are given by regex over *pretty* function names; CBMC wants mangled ids. Compile the
+    harness (codegen only), read Kani's pretty_name_map.json for it and build --unwindset arguments.
+    Unwinding (recursion) assertions stay on: a cap that cuts a reachable deeper call fails the harness
+    (inconclusive), it cannot hide it."""
+    if not caps:
+        return []
+    cmd = ["cargo", "kani", "--target-dir", target_dir, "--harness", harness.name, "--exact", "--only-codegen"]
+    cmd += list(extra_args)
+    with open(log_path + ".codegen", "w") as lf:
+        subprocess.run(cmd, cwd=hdir, env=_env(), stdout=lf, stderr=subprocess.STDOUT)
+    mangled_h = harness.meta.get("mangled_name", "")
+    maps = glob.glob(os.path.join(target_dir, "kani", "**", "*%s.pretty_name_map.json" % mangled_h), recursive=True)
+    if not maps:
+        return []
+    maps.sort(key=os.path.getmtime)
+    try:
+        d = json.load(open(maps[-1]))
+    except Exception:
+        return []
+    sets = []
+    for pat, bound in caps:
+        rx = re.compile(pat)
+        for mangled, pretty in d.items():
+            if pretty and rx.search(pretty):
+                sets.append("%s:%d" % (mangled, bound))
+    if not sets:
+        return []
+    return ["--unwindset", ",".join(sorted(set(sets)))]
+
+
+def run_one(hdir, target_dir, harness, log_path, timeout_s, mem_gb, extra_args=(), cbmc_args=(), caps=()):
+    cbmc_args = list(cbmc_args) + resolve_caps(hdir, target_dir, harness, caps, extra_args, log_path)
     cmd = ["cargo", "kani", "--target-dir", target_dir, "--harness", harness.name, "--exact"]
     cmd += list(extra_args)
     if cbmc_args:
